@@ -19,7 +19,7 @@ Abstraction of events `absEvW L` (`some .bad` = rejected, `none` = silent):
 * rejected: `urcu_die`, any other access.
 
 Well-typedness of events `evOkW` (hypothesis on the oracle, stated on the events): a loaded flags word is a non-negative
-integer, a loaded futex word an integer, loaded / exchanged `next` pointers are NULL or pointers, `errno` after a failed
+integer, a loaded futex word an integer, loaded / exchanged `next` pointers are NULL or node addresses `&x->next`, `errno` after a failed
 `FUTEX_WAIT` is EAGAIN or EINTR.
 -/
 set_option linter.unusedSimpArgs false
@@ -106,10 +106,13 @@ theorem wlr_cons (L : Layout) (ls : WLState) (e : Event) (evs : List Event) :
     simp only [wrun]
     cases wstep ls l <;> rfl
 
+/-- NULL or the address of a queue node `&x->next` (every `struct cds_wfcq_node` the work queue handles is the member
+`next` of a `struct urcu_work`) -/
 def IsNode (v : Val) : Bool :=
   match v with
   | .int n => n == 0
-  | .ptr _ => true
+  | .ptr (.field _ f) => f == "next"
+  | .ptr _ => false
 
 /-- well-typed oracle values, stated on the events -/
 def evOkW (L : Layout) : Event → Bool
